@@ -67,6 +67,11 @@ CLAIMED.update({
    text='BOUNDED (estimate size 2, 4 allocated rows, data size 3, double): from any prior state of the solver object the normal matrix and right-hand side are those of the current rows only, the Cholesky estimate satisfies the normal equations of a full-rank problem and does not depend on the prior state, an affine preconditioner is applied as Ac x + Bc, the weighted estimate satisfies the normal equations of the weighted rows. The SVD path, resizing, float and all other sizes are NOT decided.',
    note=TB_B + '; every obligation is labelled bounded in the evidence (coverage.bounded) and none is counted as discharged; JtJ.ldlt().solve(I) enters by the assumed contract adj/det', ref='DESIGN.md 9.8'),
 })
+CLAIMED.update({
+ 'C05': dict(cat='other', technique='BOUNDED stand-in: SMT verification conditions over the reals generated from the real FindRigidTransformationByLeastSquares<Vector3d>::estimate_ overloads (2 correspondences, solver members bound to fixed sizes), the least-squares solver used by contract; never counted as proved',
+   text='BOUNDED (2 correspondences, 3-D double points): for every parameter vector the row written for a correspondence is its linearised point-to-plane residual n.(s + w x s + t - q), the solver is sized for the number of correspondences, and the returned matrix is identity + skew(w) with translation t for the solver estimate (aligned and index-based overloads, any prior object state). Optimality of the estimate is C07; exact/O(t^2) recovery, preconditioning invariance, 2-D, float and homogeneous points are NOT decided.',
+   note=TB_B + '; LeastSquares::estimateUsingSVD / setDataSize used by contract (specs/C05/meta.json); every obligation is labelled bounded in the evidence and none is counted as discharged', ref='DESIGN.md 9.8'),
+})
 COMMON_NA = "the deciding computation is a third-party header-only kernel that contract-based verification cannot reach here: CBMC's C++ front end does not parse Eigen/nanoflann, the extractor covers fixed-size coefficient-wise Eigen only, and a contract on the kernel would have to be assumed in full, after which nothing of the property is left to prove; switching to testing or model checking would be a different technique family (DESIGN.md 5, 9.6)"
 CLAIMED.update({
  'C04': dict(cat='proof', technique='SMT / exact-polynomial verification conditions on the extracted estimator with Eigen::JacobiSVD under an assumed contract (orthogonal U and V) and havocked accumulation loops; algebraic certificates; CBMC code contracts with a loop invariant for PreconditionedPointSet',
@@ -74,7 +79,6 @@ CLAIMED.update({
    note=TB_A + '; ' + TB_B + '; Eigen::JacobiSVD enters by the assumed contract that matrixU() and matrixV() are orthogonal; the clauses about what the decomposition returns for given data (exact recovery to 1e-9, least-squares optimality, invariance under preconditioning / order / representation) are not decided', ref='DESIGN.md 9.7'),
 })
 NA = {
- 'C05': 'point-to-plane least squares: the claim is optimality of an LDLT/SVD solve of accumulated normal equations on dynamic-size Eigen matrices, to O(t^2) and floating-point tolerances; %s',
  'C06': 'ICP + RANSAC convergence envelope on a data file: an empirical convergence statement about an iterative, randomised pipeline (nanoflann kd-tree, Eigen solvers, std::mt19937), not a per-call pre/postcondition; %s',
  'C08': 'kd-tree queries: the search is about 1400 lines of vendored nanoflann templates (recursive tree build, heap result sets); the repository part is a forwarding call; %s',
  'C09': 'surface normals: eigenvector of Eigen::SelfAdjointEigenSolver on neighbourhoods returned by the nanoflann kd-tree; unit length, least-variance direction, curvature range and rotation equivariance are properties of that solver output in floating point (the sensor-facing flip alone decides no clause); %s',
